@@ -235,6 +235,14 @@ def gen_C17(rnd, n, tier):
     for q, pth in enumerate(["data\\maps\\Route1\\scripts.pory", "data\\maps\\Route2\\scripts.pory", "Route3/scripts.pory"]):
         srcp = "script Route%d_Sign {\n  lock\n  msgbox(\"sign %d\")\n  release\n}\n" % (q, q)
         cp = base_cfg(lm=True, path=pth); base.append((Case(compile_line(cp, srcp), srcp, cp, {}), 3))
+    # two scripts of one file that both fail in the emitter: always the first one's error
+    two = "script First {\n  lock\n  if (flag(A)) {\n    a\n  } elif (flag(B)) {\n    b\n  }\n  switch (var(V)) {\n    case 1: c\n  }\nFirst_1:\n  end\n}\nscript Second {\n  if (flag(C)) {\n    nop\n  }\nSecond_1:\n  end\n}\n"
+    for o in (True, False):
+        c2f = base_cfg(optimize=o); base.append((Case(compile_line(c2f, two), two, c2f, {}), 8))
+    # an AutoVar entry that has both a var name and an argument position
+    cboth = base_cfg(); cboth.autovars = dict(cboth.autovars, both=("VAR_RESULT", 0))
+    sboth = "script Gambler {\n  lock\n  if (both(VAR_TEMP_1) >= 50) {\n    x\n  }\n  release\n}\n"
+    base.append((Case(compile_line(cboth, sboth), sboth, cboth, {}), 4))
     srcenv = 'script S {\n  poryswitch(GAME) { RUBY: r _: o }\n  poryswitch(LANG) { DE { d } _ { e } }\n}\n'
     cenv = base_cfg(switches={"GAME": "RUBY"}); base.append((Case(compile_line(cenv, srcenv), srcenv, cenv, {}), 4))
     # two label clashes in different chunks of one script: always the same one is reported
@@ -571,7 +579,7 @@ def gen_C20(rnd, n, tier):
     kinds = ["break_outside", "continue_outside", "continue_not_last", "dup_case", "two_defaults", "const_redef",
              "text_clash", "movement_clash", "label_clash", "label_text_clash", "continue_in_switch_only",
              "continue_after_loop_in_switch", "break_after_closed_loop", "continue_after_closed_loop",
-             "dup_case_const", "dup_case_const_rev", "dup_case_multi", "label_clash_forward", "continue_not_last_in_case", "label_clash_nested", "continue_after_inf_loop", "dup_case_nested_switch", "label_clash_probe"]
+             "dup_case_const", "dup_case_const_rev", "dup_case_multi", "dup_case_many", "label_clash_forward", "continue_not_last_in_case", "label_clash_nested", "continue_after_inf_loop", "dup_case_nested_switch", "label_clash_probe"]
     for i in range(n):
         kind = kinds[i % len(kinds)]
         pre = p_block(plain_body(rnd), 1)      # statements before, inside script S
@@ -622,6 +630,12 @@ def gen_C20(rnd, n, tier):
             body = bl + ["  switch (var(V)) {", "    case %s: a" % c1, "    case 2:", "    case %s: b" % c2, "  }"]
             lines = ["const K_YES = 1"] + head + ["script S {"] + body + ["}"]
             src = "\n".join(lines) + "\n"; line = 1 + len(head) + 1 + len(bl) + 4
+        elif kind == "dup_case_many":
+            # a long switch: the k-th of N distinct values is repeated at the end (every k, every position matters)
+            N = rnd.choice([9, 10, 13, 17, 33]); k = rnd.choice([x for x in (1, 2, 7, 8, 9, 10, 15, 16, 17, 18, 31, 32, 33, N - 1, N) if 1 <= x <= N])     # around the usual small-array thresholds
+            body = bl + ["  switch (var(V)) {"] + ["    case %d: c%d" % (j, j) for j in range(1, N + 1)] + ["    case %d: again" % k, "  }"]
+            line = len(head) + 1 + len(bl) + 1 + N + 1
+            src = assemble(head, body)
         elif kind == "continue_not_last":
             loop = rnd.choice(["while (flag(A)) {", "do {", "while {"])
             close = "  } while (flag(B))" if loop == "do {" else "  }"
